@@ -226,6 +226,9 @@ fn main() {
             .location()
             .map(|l| format!("{}:{}", l.file(), l.line()))
             .unwrap_or_default();
+        if std::env::var("PW_DEBUG").is_ok() {
+            eprintln!("PANIC at {}: {}\n{}", loc, info, std::backtrace::Backtrace::force_capture());
+        }
         LAST_PANIC_LOC.with(|c| *c.borrow_mut() = loc);
     }));
 
@@ -300,15 +303,20 @@ fn main() {
                 a.n = req["n"].as_u64().unwrap_or(u64::MAX);
                 a.sticky = req["sticky"].as_bool().unwrap_or(false);
                 a.tight = req["tight"].as_bool().unwrap_or(false);
+                let tight_now = a.tight && a.kind.as_deref() == Some("heap");
                 drop(a);
                 if req["trim"].as_bool().unwrap_or(false) {
                     machine.verif_trim_heap();
                 }
+                // one-cell growth from now on (the query text itself is written
+                // to the heap before the ARM marker is reached)
+                verif::set_tight_growth(tight_now);
                 json!({"ok": true})
             }
             "arm_report" => {
                 let mut a = shared.arm.borrow_mut();
                 do_disarm(&mut a);
+                verif::set_tight_growth(false);
                 let flag = verif::take_interrupt_flag();
                 let r = json!({"w0": a.w0, "w1": a.w1, "total": a.total, "failed": a.failed,
                                "saw_arm": a.saw_arm, "interrupt_flag_left_set": flag});
